@@ -1,17 +1,25 @@
 #!/bin/sh
 # usage: run.sh <C11|C12> <quick|thorough> <seed> [extra strprobe flags, e.g. -only 123]
-# Builds the probe against the CURRENT /repo tree (tag verif) and runs it; prints ONE JSON object
-# on stdout, progress on stderr.  Exit 0 unless the probe itself is broken (2).
+# Builds the probe against the CURRENT /repo tree (tag verif) — or the tree named by STRPROBE_REPO —
+# and runs it; prints ONE JSON object on stdout, progress on stderr.
+# Exit 0 unless the probe itself is broken (2).
 PID=${1:?usage: run.sh <C11|C12> <quick|thorough> <seed>}
 TIER=${2:-quick}
 SEED=${3:-1}
 [ $# -ge 3 ] && shift 3 || shift $#
 HERE=$(cd "$(dirname "$0")" && pwd)
-OUT=${STRPROBE_BIN:-/verif/build/strprobe}
 export GOFLAGS=-mod=mod GOPROXY=off GOSUMDB=off GOTOOLCHAIN=local
-mkdir -p "$(dirname "$OUT")"
-(cd "$HERE" && go build -tags verif -o "$OUT" .) >&2 || { echo "strprobe: build failed" >&2; exit 2; }
-"$OUT" -pid "$PID" -tier "$TIER" -seed "$SEED" "$@"
+work=$(mktemp -d /tmp/strprobe-run-XXXXXX) || exit 2
+trap 'rm -rf "$work"' EXIT INT TERM
+modflag=""
+if [ -n "${STRPROBE_REPO:-}" ]; then
+	sed "s#=> /repo\$#=> $STRPROBE_REPO#" "$HERE/go.mod" >"$work/go.mod"
+	cp "$HERE/go.sum" "$work/go.sum"
+	modflag="-modfile=$work/go.mod"
+fi
+# private binary: several run.sh may be active at the same time
+(cd "$HERE" && go build -tags verif $modflag -o "$work/strprobe" .) >&2 || { echo "strprobe: build failed" >&2; exit 2; }
+"$work/strprobe" -pid "$PID" -tier "$TIER" -seed "$SEED" "$@"
 rc=$?
 [ $rc -eq 0 ] || exit 2
 exit 0
